@@ -198,6 +198,20 @@ CHECKS['C17'] = {
     'note': "Modelled, not verified: futures-channel bounded mpsc parking semantics, tokio Mutex fairness, QUIC flow control; topic_handles is taken to be locked only briefly.",
     'design': 'DESIGN.md section 3 C17',
 }
+
+CHECKS['C15'] = {
+    'technique': 'machine-checked proof in Coq (symbolic PKI; verifier configuration and generator parameters translated from the source) + the full identity matrix handshaken over loopback QUIC with fresh keys',
+    'text': ("Partial by nature: the theorems are about the configuration-level decision, the cryptography (rustls/webpki/ring) is trusted. Translated on every run: the client-certificate verifier "
+             "the server installs and the source of its roots (--ca), the client's verifier (root store of with_certificate_authority, no custom/dangerous verifier anywhere), the server name it "
+             "connects to, and the generator's parameters (CA flag and keyCertSign, serverAuth/clientAuth usages, SAN, entity certificates signed by the CA). PROVED in a symbolic PKI where "
+             "signatures cannot be forged, for any presented chain and any keys: the configured server admits a client only if it presents a non-CA certificate usable for client "
+             "authentication with a chain certified by the configured CA; the configured client talks to a server only if its certificate is likewise certified by the client's CA, usable for "
+             "server authentication and names the host connected to; no certificate, a self-signed one or one of another CA are refused; the generator's set passes in both directions for "
+             "localhost. TIED to the code: 2 server identities x 5 client identities, through the client library and through a raw peer, with freshly generated keys each run; only "
+             "trusted/trusted may get a registration acknowledged, and the model's matrix must agree."),
+    'note': "Modelled, not verified: X.509 parsing, signature checks, validity periods and path building of webpki/ring.",
+    'design': 'DESIGN.md section 3 C15',
+}
 HOOK_COMMITS = ['f262eac']
 
 ALL = ['C%02d' % i for i in range(1, 18)]
